@@ -31,8 +31,7 @@ P = {
          'Each comparison selector (selecteq..selectge, the four ranges, none/notnone, true/false, is/isnot) is executed from the '
          'real AST (selector -> selectop -> select -> FieldSelectView.__init__) and its where-closure is proved equal to the '
          'documented predicate under the Comparable contract (C04) for ALL cell and reference values; wiring of field/complement/'
-         'missing proved. The filter loops, slicing, search, facet are carried by the bounded stand-in (tables <= 3 rows, all '
-         'slice triples).',
+         'missing proved. The filter loops iterfieldselect / iterrowselect (a row is emitted iff the predicate holds, unchanged, in order; short rows per `missing`/complement) and iterrowslice (symbolic islice window: exactly rows start, start+step, ... < stop) are proved for all tables; search and facet are carried by the bounded stand-in (tables <= 3 rows).',
          TB + ' Comparable is used through its contract (contracts/lib_order.py), itself discharged by C04.ladder.', TECH_D),
  'C01': (True, 'proof',
          'Write-set obligations of the non-interference lemma: for every Table/IterContainer subclass of 28 modules (97 view classes) the set of view attributes and process-wide state written by __iter__ and the self-methods it reaches is computed from the real AST and must be empty or within the declared, justified set of the stateful views (sort caches, hash-join lookups, cache(), fromdicts(generator), clock); sort-cache generators proved not to read shared cache attributes.'
@@ -47,32 +46,36 @@ P = {
          ' Bounded stand-in for the rest: ' 'Deep snapshots of sources (lists of mutable lists, ragged) before/after full and partial iteration of the operator catalogue; every yielded row compared with its copy at the end.',
          TB + ' Origin analysis is intra-procedural and syntactic about what creates a fresh container; callbacks assumed non-mutating.', TECH_D),
  'C05': (True, 'proof',
-         "SortView._iternocache (real AST) for ALL table and buffer sizes: the in-memory path is taken only when the whole source was read and yields each sorted row once; by an inductive invariant on `while rows` the chunking conserves rows (dumped + buffered = read; every chunk non-empty and <= buffersize; at the end every data row dumped exactly once, incl. buffersize == nrows and nrows+-1); every chunk is sorted with the one key function and the caller's reverse flag; buffersize=None means config.sort_buffersize; the cache is never published while chunks are being written."
+         "SortView._iternocache (real AST) for ALL table and buffer sizes: the in-memory path is taken only when the whole source was read and yields each sorted row once; by an inductive invariant on `while rows` the chunking conserves rows (dumped + buffered = read; every chunk non-empty and <= buffersize; at the end every data row dumped exactly once, incl. buffersize == nrows and nrows+-1); every chunk is sorted with the one key function and the caller's reverse flag; buffersize=None means config.sort_buffersize; the cache is never published while chunks are being written. K-way merge: the wrapper _Keyed is proved to order by key only (reverse flips it, ties are neither-less) and one step of the shortlist merge is proved for 2 and 3 live runs, both directions: the emitted row is a minimum (maximum) of the run heads, the earlier run wins ties (stability across chunks), the run is advanced and re-inserted in order."
          ' Bounded stand-in for the rest: ' 'sort/mergesort vs sorted(enumerate(rows)) under the C04 reference ordering for all small tables x key forms x reverse x buffersize 1..n+1,None x cache x passes; mergesort == sort(cat).',
-         TB + ' T1 (list.sort stable permutation), T5 (heapq.merge / shortlist merge) and T7 (pickle) trusted: the k-way merge and stability across chunks are decided by the bounded check only.', TECH_D),
+         TB + ' T1 (list.sort stable permutation), T7 (pickle) trusted; the merge step is proved for k = 2, 3 live runs (k > 3 and the composition of steps into a sorted permutation: engine meta-argument + bounded check); heapq.merge (T5) trusted.', TECH_D),
  'C06': (True, 'proof',
          'Merge half at GROUP level for all pairs of tables (unbounded numbers of groups): the `while True` loops of iterjoin (inner / left / right / outer), iterlookupjoin and iterantijoin are proved with an inductive invariant (all earlier left groups < current right key and vice versa; loop variables denote the current groups), per-iteration settle obligations (key(L) < key(R): L has NO partner anywhere and is emitted alone iff its side is outer; symmetric; otherwise the keys are EQ and exactly that pair is emitted / dropped for antijoin; the smaller side advances) and an exit judge for each of the six StopIteration exits (a fetched unsettled group is flushed exactly when its side is outer, a settled one never again, remaining groups of an outer side are emitted once, alone, and have no partner). Row-assembly half for all groups: joinrows (padding with `missing`, key copy to the LEFT key positions, cross product left-major) and the header; squaring up (iterstack, C12); zero-row instances (C20). Composition: every group is settled exactly once, in ascending key order.'
          ' Bounded stand-in for the rest (crossjoin, compound keys, prefixes, end-to-end vs a nested-loop reference): All pairs of small tables (None/mixed/compound keys, ragged, header-only, prefixes, missing) for the seven join operators vs a nested-loop relational reference: header, multiset, key order.',
          TB + ' T2 itertools.groupby at group level + the sort precondition (group keys strictly ascending); Comparable through its contract (C04); joinrows replaced by the event it stands for in the merge proofs (its own contract is C06.joinrows.*); single key field in the proved part.', TECH_D),
  'C07': (True, 'proof',
          "The probe loops of iterhashjoin, iterhashleftjoin and iterhashlookupjoin (real AST) are proved for ALL streamed tables and ALL lookup dictionaries (symbolic map through the contract of lookup/lookupone) by the nested stateless-body rule: a streamed row with key k yields one row per partner in lookup[k], each = the row followed by the partner's non-key cells (hashlookupjoin: the first partner only); a key that is absent yields nothing / the row padded with `missing`; hence output in the streamed side's order with the relational multiset."
-         ' Bounded stand-in for the rest (lookup family, right/anti joins, compound keys, cache, agreement with the merge joins): ' 'Hash joins vs the relational reference and vs their sort-merge twins, cache on/off, two passes, streamed-side order; lookup family vs a reference dict incl. strict.',
-         TB + ' The lookup dictionaries are ASSUMED to satisfy the contract of lookup()/lookupone() (key -> rows in table order / first row): not discharged, bounded-checked.', TECH_D),
- 'C08': B('complement/intersection/diff/record*/hash* vs collections.Counter arithmetic for all pairs of small rectangular tables; partition law.'),
+         ' lookup() and lookupone() themselves (real AST) are proved against that contract over a symbolic dictionary with a ghost counting function: after the pass, for every key the entry holds exactly the values of the rows with that key in table order (lookupone: the first; strict: DuplicateKeyError exactly at the first repeated key), absent keys absent.'
+         ' Bounded stand-in for the rest (right/anti joins, compound keys, cache, agreement with the merge joins, dictlookup/recordlookup): ' 'Hash joins vs the relational reference and vs their sort-merge twins, cache on/off, two passes, streamed-side order; lookup family vs a reference dict incl. strict.',
+         TB + ' dict through its contract (T6: keys modulo ==/hash, insertion order irrelevant to the claims); counting lemmas proved by induction (C07.cnt.lemmas); single key field in the proved part.', TECH_D),
+ 'C08': (True, 'proof',
+         'iterhashcomplement (strict and non-strict) and iterhashintersection (real AST) are proved for ALL pairs of tables with the hybrid rule over a symbolic Counter and ghost counting functions occA / cntB: the carried invariant is bcnt[v] = max(0, cntB(v) - occA(v, i)) (strict: = cntB(v)) for every value v, and row i of a is emitted, once and unchanged, iff occA(i) >= cntB(a[i]) (complement), cntB(a[i]) == 0 (strict), occA(i) < cntB(a[i]) (intersection): a\'s order, multiset a - b / a & b, and complement + intersection partition a because the keep-predicates are complementary; b is never written (C03), header of a first.'
+         ' Bounded stand-in for the rest (sort-based complement/intersection, diff, recordcomplement/recorddiff, agreement of the hash and sort variants): ' 'complement/intersection/diff/record*/hash* vs collections.Counter arithmetic for all pairs of small rectangular tables; partition law.',
+         TB + ' collections.Counter through its contract (T6); row equality = Python tuple equality (uninterpreted equivalence); the sort-based variants are bounded only.', TECH_D),
  'C09': (True, 'exploration',
          'Grouping/aggregation operators vs a dictionary-based reference grouping (ascending key order, input order inside groups, conservation of counts and sums) x spec forms x buffersize/presorted.'
-         ' Proved sub-claim (does not decide the conservation clauses on its own): ' "Group-level half proved for all tables: the keyed drivers itersimpleaggregate (single key) and iterfold emit exactly one row per group delivered by rowgroupby, carrying the unwrapped key and the aggregation / reduce applied to exactly the values of that group's rows in order (itertools.groupby through its contract T2: consecutive non-empty runs); header once. That the sorted input is split into one group per distinct key in ascending order (T2 + the sort), the multi-field form, mergeduplicates, merge and the counting functions are NOT proved.",
+         ' Proved sub-claim (does not decide the conservation clauses on its own): ' "Group-level half proved for all tables: the keyed drivers itersimpleaggregate (single key) and iterfold emit exactly one row per group delivered by rowgroupby, (iterrowreduce likewise) carrying the unwrapped key and the aggregation / reduce applied to exactly the values of that group's rows in order (itertools.groupby through its contract T2: consecutive non-empty runs); header once. That the sorted input is split into one group per distinct key in ascending order (T2 + the sort), the multi-field form, mergeduplicates, merge and the counting functions are NOT proved.",
          BNOTE, TECH_D),
  'C10': (True, 'proof',
          'iterduplicates and iterunique (carried-state loops) are proved with the hybrid rule: an inductive invariant pins previous / previous_yielded / prev_comp_ne as functions of the position and the rows emitted per iteration are proved to be exactly: duplicates emits row k (and once its predecessor) iff their keys are ==, unique emits a row iff its key differs from both neighbours; with keys contiguous (sorted) this is the partition by key multiplicity, in order.'
          ' Bounded stand-in for the rest: ' 'duplicates/unique/distinct/conflicts/isunique vs key-multiplicity reference for all small rectangular tables x key forms incl. header-only, zero-field.',
-         TB + ' single key field, rectangular table; distinct / conflicts / compound keys are bounded only.', TECH_D),
+         TB + ' DistinctView.__iter__ (keyed, keyless, count=) and iterconflicts are proved by the same rules (distinct: first row of every run of == keys, count = run length; conflicts: a row is emitted iff it conflicts with a neighbour of the same key, each once); single key field, rectangular table; compound keys bounded only.', TECH_D),
  'C11': (True, 'proof',
          'Wiring half, proved for 25 sort-backed constructors executed from the real AST with symbolic buffersize / tempdir / cache: every SortView reachable from the result carries exactly the caller\'s strategy arguments (no inner sort falls back to defaults), each sort is on the operator\'s own key and - for the joins - applied to the squared-up input; presorted=True inserts no sort (except where the operator must sort anyway); nothing is read at construction. Sort half (C05.iternocache): for every buffersize the same rows reach the merge (chunking conserves rows), buffersize=None = config default, the cache is published only after a complete pass, cache=False caches nothing, cache-backed generators own what they were handed.'
          ' Bounded stand-in for the result-equality clause (same header, rows and order as the default call) and the cache histories: Every sort-backed operator x buffersize x cache x tempdir x config.sort_buffersize x presorted vs the default call; cache clause over (edit, iterate) histories with pull counting.',
          TB + ' The k-way merge of the chunks (T5) is trusted / bounded, so equality of the ORDER of equal-key rows across strategies is decided by the bounded check only.', TECH_D),
  'C12': (True, 'proof',
-         'asindices is proved with an inductive loop invariant for any number of selectors (indices in range) and exactly for 1-2 selectors; itercut, iterstack, iteraddfield, iteraddrownumbers, setheader/extendheader/pushheader are proved cell-exact per data row by the stateless-body rule for all tables, row lengths, indices and flags (one output row per input row, only the requested cells change, padding/trimming as documented, no IndexError); iterfieldconvert.transform_row proved per cell.'
+         'asindices is proved with an inductive loop invariant for any number of selectors (indices in range) and exactly for 1-2 selectors; itercut, iterstack, iteraddfield, iteraddrownumbers, setheader/extendheader/pushheader are proved cell-exact per data row by the stateless-body rule for all tables, row lengths, indices and flags (one output row per input row, only the requested cells change, padding/trimming as documented, no IndexError); iterfieldconvert.transform_row proved per cell; itercutout (ordered-complement model of the kept indices), itervalues and iteraddfields likewise.'
          ' Bounded stand-in for the rest: ' 'Every field/row transform of the statement vs a cell-by-cell reference over positional tables with ragged rows, duplicate names, all selections and insertion indices.',
          TB + ' asindices contract used modularly; stateless-body composition is the engine meta-theorem.', TECH_D),
  'C14': (True, 'exploration',
@@ -86,7 +89,7 @@ P = {
  'C16': (True, 'proof',
          'TeeCSVView and TeePickleView are proved transparent (each row yielded once, unchanged, in order) and to issue exactly the event trace of _writecsv / _writepickle (same prologue, one write per row, header iff write_header, flush, detach/close on every exit).'
          ' Bounded stand-in for the rest: ' 'Pass-through views yield exactly the wrapped rows; tee targets byte-identical to to*; cache() under all pass schedules and interleavings.',
-         TB + ' T7; teetext/teehtml/progress/clock/cache are bounded only.', TECH_D),
+         TB + ' T7; ProgressViewBase / ClockView / TableWrapper proved pass-through by a shape analysis of their __iter__ (every source row yielded exactly once, unchanged, nothing else yielded); teetext/teehtml/cache are bounded only.', TECH_D),
  'C17': (True, 'proof',
          'Typestate proof over the effect trace: todb/appenddb/_todb/_todb_dbapi_{connection,cursor,mkcurs} are executed from the real AST on EVERY path with every external call (connect, cursor, execute, executemany, close, commit) and every source next() allowed to raise; on each path: no commit when an exception escapes, at most one commit and only after executemany completed, commit=False never commits, DELETE+INSERT+commit on one connection, petl-opened connections opened transactional and closed last, caller handles never closed, header consumed before any statement.'
          ' Bounded stand-in for the rest: ' 'sqlite3: prior contents x source failure at every row index x handle kind x commit flag for todb/appenddb, observed through a fresh connection; fromdb(todb(t)) == t.',
@@ -96,7 +99,7 @@ P = {
          ' Proved sub-claim (not what decides the property): ' 'ownership obligation (C05.iternocache): every chunk file is created with delete=False in the requested tempdir and wrapped by the delete-on-GC wrapper before any row is dumped; the cache is not published while chunks are being written; sort-cache generators own what they were handed (C01.frame).',
          BNOTE + ' The deciding fact - when CPython finalises an unreachable wrapper - is T9, not a function contract.', TECH_D),
  'C19': (True, 'proof',
-         'transform_value and transform_row of the real iterfieldconvert and the row loop of iterrowmap are proved against the three-way policy for ALL values, converters (uninterpreted callbacks that may raise an exception of any class) and positions: errorvalue / exception object / re-raise at the failing cell or row, non-failing cells identical, lazily failing mapper results included.'
+         'transform_value and transform_row of the real iterfieldconvert and the row loop of iterrowmap plus iterfieldmap and iterrowmapmany are proved against the three-way policy for ALL values, converters (uninterpreted callbacks that may raise an exception of any class) and positions: errorvalue / exception object / re-raise at the failing cell or row, non-failing cells identical, lazily failing mapper results included.'
          ' Bounded stand-in for the rest: ' 'Every subset of failing positions x three policies x argument vs config default x errorvalue for convert/fieldmap/rowmap/rowmapmany vs the policy reference, stepped with next().',
          TB + ' Callbacks deterministic; callback exception classes unconstrained (any Exception subclass).', TECH_D),
  'C20': (True, 'proof',
